@@ -1,18 +1,30 @@
 (* C03 — Every request's connection acquisition terminates; nobody is stranded.
-   Statements only; proofs in pool/ProofsLite2.v.
+   Statements only; proofs in pool/ProofsC03.v (invariant and tracker relation in pool/FramesC03.v) and
+   pool/ProofsLite2.v.
    FULL STATEMENT (the monitor theorem, for every configuration and every operation history):
      forall cfg body u p, mon_C03 cfg (body ++ drain_ops (count_issues body) u p) true
                                   (trace cfg (body ++ drain_ops (count_issues body) u p)) = true
    i.e. (a) no lost wake-up, (b) nothing after cancel/completion, (c) after the closing procedure
    every request and a fresh probe hold a connection or an error.
-   PROVED SO FAR (partial): the per-primitive halves, for all states: every state change that lets a
-   request proceed wakes it if it registered a waker (delivery into its channel, release of a
-   checkout waiting on a failed/abandoned attempt = D4 repair, completion of its dial, completion of
-   the exchange it holds); a pure waiter is pending exactly while its sender is alive and silent.
-   MISSING: the invariant lifting these to every reachable state (Inv_owner / Inv_wake of DESIGN.md 6.1)
-   and the measure argument for the closing procedure.  The full monitor is evaluated on every
-   implementation trace and the model is compared with the implementation after every operation. *)
-From HD Require Import common.Base http.Model pool.Model pool.Spec pool.ProofsLite pool.ProofsLite2.
+   PROVED (no axioms), for every configuration and EVERY finite operation sequence:
+     [c03_no_lost_wakeup_and_quiet] = clauses (a) and (b): the per-operation check [chk_C03] accepts every
+     operation of the model's trace: whenever a request whose last poll returned Pending makes progress
+     (is handed a connection, or resolves) it was in the woken set observed after the previous
+     operation, and no event is ever recorded for a request after its cancellation or completion.
+     The invariant behind it (Inv, pool/FramesC03.v): a checkout whose last poll was pending has its waker
+     registered on its channel, its own dial (if in flight) was polled by the request itself, and if a
+     poll would now complete (channel filled / sender dropped / dial resolved / exchange finished) the
+     request is woken; delayed connector tasks only exist for requests that are no checkouts any more.
+   STILL MISSING: clause (c), the liveness half ([all_resolved] after [drain_ops]); see the end of this
+   header for the precise gap.  The per-primitive lemmas below (kept from the interim file) are its
+   building blocks.  The full monitor is evaluated on every implementation trace and the model is
+   compared with the implementation after every operation. *)
+From HD Require Import common.Base http.Model pool.Model pool.Spec pool.ProofsLite pool.ProofsLite2 pool.FramesC03 pool.ProofsC03.
+
+Theorem c03_no_lost_wakeup_and_quiet : forall cfg ops, mon_with chk_C03 cfg ops (trace cfg ops) = true.
+Proof. exact mon_C03_steps_holds. Qed.
+Check c03_no_lost_wakeup_and_quiet : forall cfg ops, mon_with chk_C03 cfg ops (trace cfg ops) = true.
+Print Assumptions c03_no_lost_wakeup_and_quiet.
 
 Theorem c03_delivery_wakes_partial : forall w p s ck,
   get_req s w = Some (RCheckout ck) -> k_rxpolled ck = true -> w < List.length (woken s) ->
